@@ -2003,6 +2003,11 @@ class Generator:
         lower = text.lower()
         quoted = expression.quoted
         text = lower if self.normalize and not quoted else text
+        for escape in self.dialect.tokenizer_class.IDENTIFIER_ESCAPES:
+            # an escape character other than the delimiter itself (ClickHouse's backslash) would
+            # otherwise consume the character that follows it when the identifier is lexed again
+            if escape != self._identifier_end:
+                text = text.replace(escape, escape * 2)
         text = text.replace(self._identifier_end, self._escaped_identifier_end)
         if (
             quoted
